@@ -103,10 +103,13 @@ Do(a) ==
        [] a.op = "evaluate_nested" ->  \* scope^(a.s) { evaluate }; evaluate  on a copy of the population: the run
                                        \* succeeds and makes exactly 2 |pop| objective calls (res.v)
             /\ res' = R("ok", 2 * Len(pop)) /\ UNCHANGED <<pop, best, arch, shownK, evals, calls>>
-       [] a.op = "update_best" ->    \* BestIndividualUpdate: strictly better replaces, first minimum wins
+       [] a.op = "update_best" ->    \* BestIndividualUpdate: only a strictly better candidate replaces; which of
+                                     \* several equally good minima is recorded is not fixed by the statement
             /\ IF Len(pop) = 0 THEN best' = best
-               ELSE LET c == pop[ArgMin(pop, 1, 1)] IN
-                    best' = IF best = NoInd \/ c.o < best.o THEN c ELSE best
+               ELSE LET m == pop[ArgMin(pop, 1, 1)].o IN
+                    IF best = NoInd \/ m < best.o
+                    THEN best' \in {pop[j] : j \in {x \in Idx : pop[x].o = m}}
+                    ELSE best' = best
             /\ res' = R("ok", 0)
             /\ UNCHANGED <<pop, arch, shownK, evals, calls>>
        [] a.op = "init_run" ->       \* the init phase of a (further) run on this state: counter and memories start empty
